@@ -12,7 +12,8 @@ SPEC = dict(
          'the serialized result equals the reference result (former anchor gone), parses again and clones identically. '
          'Further: status codes wider than 32 bits; response object / second signature request / re-submission on the asynchronous handle. '
          'Replies without a status element that bear another request id / publication time / aggregation time; an error payload next to the correct response. '
-         'The WithPolicy forms of the blocking calls with the caller\'s own verification context (fresh, or still naming the source signature).',
+         'The WithPolicy forms of the blocking calls with the caller\'s own verification context (fresh, or still naming the source signature).'
+         ' Altered right link at the first, second, third and last position; signatures laid out record, calendar chain, aggregation chains; the extended result extended once more (identical).',
     bounds=dict(
         quick='TCP: all replies; HTTP: correct / wrong-id / right-altered; source forms with calendar chain: all replies, others: 4 key replies; first 2 sub-variants',
         thorough='full product of the dimensions above (v1 for correct / wrong-id / other-version / right-altered), plus two-chain sources'),
